@@ -633,7 +633,7 @@ def w_alt_constructors(ctx, rng, i):
                 ctx.fail("number_of_components_differs_from_rank", cls="PCAVectorModel", mech="alt_ctor_uncentred_covariance", got=int(m2_.n_components), expected=int(len(lam2)))
             elif _amax(m2_._eigenvalues - lam2) > 1e-7 * lam2[0]:
                 ctx.fail("eigenvalues_are_not_the_sample_variances_along_the_components", cls="PCAVectorModel", mech="alt_ctor_uncentred_covariance")
-            else:
+            elif mild:
                 rec_ = np.asarray(PCAVectorModel.reconstruct(m2_, X2[0].copy()), dtype=float)
                 if _amax(rec_ - X2[0]) > 1e-7 * max(1.0, float(np.abs(X2).max())):
                     ctx.fail("training_sample_not_reconstructed_exactly", cls="PCAVectorModel", mech="alt_ctor_uncentred_covariance", err=_amax(rec_ - X2[0]))
